@@ -1,7 +1,11 @@
-"""C10 -- E1 half only for now (props/C10_e1.py); the E2 obligations are merged in here later."""
-from props.C10_e1 import *
-from props import C10_e1 as _e1
+"""C10 — built-in Snappy and LZ4 speak the standard formats.
+E1 half (props/C10_e1.py, CBMC): carquet's decompressors vs independent reference decoders on every input of L bytes, and on
+streams built by an independent encoder from symbolic scripts.  E2 half (props/C10_e2.py, symx): every compressor output for
+inputs of n bytes is decoded back to the input by the independent reference decoders (LZ4: end-of-block rules enforced)."""
+from props import C10_e1 as _e1, C10_e2 as _e2
+FILES = ['src/compression/snappy.c', 'src/compression/lz4.c']
+BUDGET = {'quick': 1500, 'thorough': 3600}
 
 
 def obligations(tier):
-    return _e1.obligations(tier)
+    return _e1.obligations(tier) + _e2.obligations(tier)
